@@ -188,7 +188,10 @@ def rand_expr(rng: random.Random, atoms: list[str], depth: int) -> str:
         return '%s(%s)' % (rng.choice(['sin', 'cos', 'exp', 'sqrt']),
                            rng.choice(['0.5', 'pi/8', '0.3+0.1', '2']))
     if k < 0.48:
-        return rand_expr(rng, atoms, depth - 1) + '^' + rng.choice(['2', '3'])
+        # powers of atoms only: a chain such as 3^2^3^3 is not an angle (it
+        # overflows to inf in one implementation and to a Python int too
+        # large for a float in the other)
+        return rng.choice(atoms) + '^' + rng.choice(['2', '3'])
     op = rng.choice(['+', '-', '*', '/', '+', '-'])
     left = rand_expr(rng, atoms, depth - 1)
     right = rand_expr(rng, atoms, depth - 1)
